@@ -19,7 +19,7 @@ EXPLANATION = (
     " and each conversion answers HTTPConflict with comment "
     "placement.concurrent_update.")
 ASSUMPTIONS = [
-    "the schedule statement follows from R5.1-R5.3, R10.1 (increment in the "
+    "the schedule statement follows from R5.1-R5.3, R5.6 = R10.1 (increment in the "
     "same scope as the data change) and DBMS atomicity; it is not re-derived",
 ]
 
@@ -408,10 +408,12 @@ def run(ctx, R):
     incr = {prog.func(RP_INCR), prog.func(CONS_INCR)}
     n3 = 0
     for f in C.handler_defs(ctx):
+        # counted over all handler definitions: dropping an increment must
+        # not look like a lost anchor
+        n3 += 1
         reach = ctx.cg.reachable([f])
         if not (reach & incr):
             continue
-        n3 += 1
         impl, _ = C.impl_of(ctx, f)
         esc = sorted(x for x in ctx.raises.escaping(f)
                      if ctx.raises.is_subclass(x, CUD))
@@ -446,7 +448,7 @@ def run(ctx, R):
                 src(h.type)[:60] if h.type is not None else 'bare'),
                 okc, 'HTTPConflict(comment=errors.CONCURRENT_UPDATE)', why,
                 func=hf, node=h)
-    R.count("R5.3", n3, 16)
+    R.count("R5.3", n3, 42)
     from psa.rules import genstate
     n4 = genstate.generation_writers(ctx, R, 'R5.4')
     genstate.reshape_identity(ctx, R, 'R5.4')
@@ -454,3 +456,6 @@ def run(ctx, R):
     from psa import sqlshape
     n5 = sqlshape.shape_rule(ctx, R, 'R5.5', [RP_INCR])
     R.count('R5.5', n5, 1)
+    # ---- R5.6: the compare-and-swap runs in the transaction of the change
+    from psa.rules import c10
+    c10.r101(ctx, R, 'R5.6')
